@@ -42,6 +42,7 @@ type Cluster struct {
 	Chain  []*types.Block // accepted blocks, in order (height 1..)
 	StabAt []uint32       // for every accepted block: stable height after it was processed
 	Stable uint32
+	Stuck  bool // a stabilisation did not take effect; the scenario cannot continue
 }
 
 // NewCluster builds a world and nNodes nodes (all with the outsider identity, so that the
@@ -114,9 +115,14 @@ func (cl *Cluster) Adopt(b *types.Block) {
 }
 
 // StabiliseAll makes the head stable on every node.
-func (cl *Cluster) StabiliseAll() {
+func (cl *Cluster) StabiliseAll() bool {
 	for _, n := range cl.Nodes {
 		n.Stabilise(cl.Head)
+		if n.BC.StableBlock().Hash() != cl.Head.Hash() {
+			// e.g. the store cannot encode the block's change logs (negative vote count, C11)
+			cl.Stuck = true
+			return false
+		}
 	}
 	cl.Stable = cl.Head.Height()
 	cl.G.StableH = cl.Stable
@@ -126,6 +132,7 @@ func (cl *Cluster) StabiliseAll() {
 	for _, n := range cl.Nodes {
 		n.WaitQueue()
 	}
+	return true
 }
 
 // MustStabiliseSoon reports whether the head has to become stable before the chain may
